@@ -444,13 +444,97 @@ func traceFields(o opts) error {
 				s2.Close()
 			}
 		}
+		// a third scenario of its own: a struct value whose fields already hold something (a
+		// placeholder longer than any secret) is applied to one store, the store is closed, and the
+		// same Fields are applied to a second store whose service has other, shorter values under
+		// the same names.  After each Apply a plain field holds exactly its store's bytes.
+		third := "-"
+		if via == "apply" && perr == "-" && ptr == "1" {
+			svcA := &mapSvc{vals: map[string][]byte{}}
+			svcB := &mapSvc{vals: map[string][]byte{}}
+			for k, v := range svc.vals {
+				svcA.vals[k] = append([]byte("first-store-value-of-some-length:"), v...)
+				svcB.vals[k] = []byte("B" + fmt.Sprint(len(k)))
+			}
+			val3 := reflect.New(st)
+			for i, d := range descs {
+				if i >= len(sfs) || !d.hasTag || sfs[i].Name != d.fname {
+					continue
+				}
+				switch d.kind {
+				case "bytes":
+					val3.Elem().Field(i).SetBytes(bytes.Repeat([]byte("placeholder."), 12))
+				case "string":
+					val3.Elem().Field(i).SetString("placeholder")
+				}
+			}
+			cx := context.Background()
+			fs3, err := setec.ParseFields(val3.Interface(), prefix)
+			if err == nil {
+				third = "ok"
+				checkAgainst := func(which string, m *mapSvc) {
+					for i, d := range descs {
+						if i >= len(sfs) || sfs[i].Name != d.fname || !d.hasTag || strings.Contains(d.tag, ",") || d.tag == "" || third != "ok" {
+							continue
+						}
+						want, ok := m.vals[join(d.tag)]
+						if !ok {
+							continue
+						}
+						switch d.kind {
+						case "bytes":
+							if got := val3.Elem().Field(i).Bytes(); !bytes.Equal(got, want) {
+								third = fmt.Sprintf("%s:%s:got=%s:want=%s", which, d.fname, hb(got), hb(want))
+							}
+						case "string":
+							if got := val3.Elem().Field(i).String(); got != string(want) {
+								third = fmt.Sprintf("%s:%s:got=%s:want=%s", which, d.fname, hx(got), hb(want))
+							}
+						case "secret":
+							if h, _ := val3.Elem().Field(i).Interface().(setec.Secret); h == nil || !bytes.Equal(h.Get(), want) {
+								var got []byte
+								if h != nil {
+									got = h.Get()
+								}
+								third = fmt.Sprintf("%s:%s:got=%s:want=%s", which, d.fname, hb(got), hb(want))
+							}
+						}
+					}
+				}
+				func() {
+					defer func() {
+						if p := recover(); p != nil {
+							third = "panic:" + hx(fmt.Sprint(p))
+						}
+					}()
+					sA, errA := setec.NewStore(cx, setec.StoreConfig{Client: svcA, AllowLookup: true, PollInterval: -1, Logf: func(string, ...any) {}})
+					if errA != nil {
+						third = "-"
+						return
+					}
+					errApplyA := fs3.Apply(cx, sA)
+					if errApplyA == nil {
+						checkAgainst("first", svcA)
+					}
+					sA.Close()
+					sB, errB := setec.NewStore(cx, setec.StoreConfig{Client: svcB, AllowLookup: true, PollInterval: -1, Logf: func(string, ...any) {}})
+					if errB != nil {
+						return
+					}
+					if fs3.Apply(cx, sB) == nil && errApplyA == nil {
+						checkAgainst("second", svcB)
+					}
+					sB.Close()
+				}()
+			}
+		}
 		var svcNames []string
 		for n, v := range svc.vals {
 			svcNames = append(svcNames, hx(n)+"="+hb(v))
 		}
 		sort.Strings(svcNames)
-		emit("fields\tlisted=%s\tvia=%s\tprefix=%s\tshape=%s\tptr=%s\tsvc=%s\tperr=%s\tnames=%s\treqs=%s\taerr=%s\tvals=%s\tuntouched=%s\tstore_after=%s\tjsonok=%s\tsecond=%s",
-			xlistT(listedOut), via, hx(prefix), strings.Join(shape, ";"), ptr, strings.Join(svcNames, ";"), perr, namesOut, xlistT(svc.reqs), aerr, strings.Join(vals, ";"), untouched, storeAfter, strings.Join(jsonOK, ";"), second)
+		emit("fields\tthird=%s\tlisted=%s\tvia=%s\tprefix=%s\tshape=%s\tptr=%s\tsvc=%s\tperr=%s\tnames=%s\treqs=%s\taerr=%s\tvals=%s\tuntouched=%s\tstore_after=%s\tjsonok=%s\tsecond=%s",
+			third, xlistT(listedOut), via, hx(prefix), strings.Join(shape, ";"), ptr, strings.Join(svcNames, ";"), perr, namesOut, xlistT(svc.reqs), aerr, strings.Join(vals, ";"), untouched, storeAfter, strings.Join(jsonOK, ";"), second)
 	}
 	return nil
 }
